@@ -297,32 +297,128 @@ func FuncParamCallLocks(callee *ssa.Function, idx int) (LockSet, []ssa.CallInstr
 	return res, sites, li
 }
 
+// LocksFrom runs the lock-set analysis path-sensitively with respect to a
+// start instruction: only paths that begin right after `start` (with the lock
+// set `init`) are considered, and they end when they come back to `start`.
+// The result maps every instruction reachable from start to the set of locks
+// held on ALL such paths before it.
+func LocksFrom(start ssa.Instruction, init LockSet) map[ssa.Instruction]LockSet {
+	res := map[ssa.Instruction]LockSet{}
+	fn := start.Parent()
+	apply := func(s LockSet, instr ssa.Instruction) LockSet {
+		if _, isDefer := instr.(*ssa.Defer); isDefer {
+			return s
+		}
+		if _, isGo := instr.(*ssa.Go); isGo {
+			return s
+		}
+		p, op, ok := lockOp(instr)
+		if !ok {
+			return s
+		}
+		s = s.clone()
+		switch op {
+		case "Lock":
+			s[p] = WLock
+		case "RLock":
+			if s[p] < RLock {
+				s[p] = RLock
+			}
+		case "Unlock", "RUnlock":
+			delete(s, p)
+		}
+		return s
+	}
+	// state at block entry (for blocks entered from their top)
+	in := map[*ssa.BasicBlock]LockSet{}
+	type job struct {
+		b *ssa.BasicBlock
+		i int
+		s LockSet
+	}
+	var work []job
+	work = append(work, job{start.Block(), Index(start) + 1, init.clone()})
+	for len(work) > 0 {
+		j := work[0]
+		work = work[1:]
+		s := j.s
+		stopped := false
+		for i := j.i; i < len(j.b.Instrs); i++ {
+			instr := j.b.Instrs[i]
+			if instr == start {
+				stopped = true
+				break
+			}
+			if cur, ok := res[instr]; ok {
+				res[instr] = meet(cur, s)
+			} else {
+				res[instr] = s.clone()
+			}
+			s = apply(res[instr], instr)
+		}
+		if stopped {
+			continue
+		}
+		for _, succ := range j.b.Succs {
+			cur, ok := in[succ]
+			var ni LockSet
+			if ok {
+				ni = meet(cur, s)
+				if equalLS(ni, cur) {
+					continue
+				}
+			} else {
+				ni = s.clone()
+			}
+			in[succ] = ni
+			work = append(work, job{succ, 0, ni})
+		}
+	}
+	_ = fn
+	return res
+}
+
 // HeldContinuously reports whether lock `path` is held (in at least `mode`)
-// at every instruction on every path from a to b.
+// at a and at every instruction on every path from a to b (paths that return
+// to a are cut there).
 func HeldContinuously(li *LockInfo, path string, mode LockMode, a, b ssa.Instruction) bool {
 	if a.Parent() != b.Parent() {
 		return false
 	}
-	// every instruction on a path a -> b that does not pass through a again must hold the lock
-	fn := a.Parent()
-	isA := func(in ssa.Instruction) bool { return in == a }
-	reachFromA := map[ssa.Instruction]bool{}
-	PathQuery{Target: func(in ssa.Instruction) bool { reachFromA[in] = true; return false }, Avoid: func(in ssa.Instruction) bool { return in == a || in == b }}.From(fn, a)
-	ok := true
-	for in := range reachFromA {
-		if in == b || in == a {
-			continue
-		}
-		t, _ := PathQuery{Target: func(x ssa.Instruction) bool { return x == b }, Avoid: isA}.From(fn, in)
-		if t == nil {
-			continue
-		}
-		if li.At(in)[path] < mode {
-			ok = false
+	if li.At(a)[path] < mode {
+		// the lock may be taken by a itself (e.g. a is the Lock call): use the state after a
+		if p, op, ok := lockOp(a); !(ok && p == path && ((op == "Lock") || (op == "RLock" && mode <= RLock))) {
+			return false
 		}
 	}
-	if li.At(b)[path] < mode {
-		ok = false
+	init := li.At(a).clone()
+	if p, op, ok := lockOp(a); ok {
+		switch op {
+		case "Lock":
+			init[p] = WLock
+		case "RLock":
+			if init[p] < RLock {
+				init[p] = RLock
+			}
+		case "Unlock", "RUnlock":
+			delete(init, p)
+		}
 	}
-	return ok
+	from := LocksFrom(a, init)
+	if _, reach := from[b]; !reach {
+		return false
+	}
+	for in, held := range from {
+		if in != b {
+			// only instructions from which b is still reachable without passing a matter
+			t, _ := PathQuery{Target: func(x ssa.Instruction) bool { return x == b }, Avoid: func(x ssa.Instruction) bool { return x == a }}.From(a.Parent(), in)
+			if t == nil {
+				continue
+			}
+		}
+		if held[path] < mode {
+			return false
+		}
+	}
+	return true
 }
